@@ -536,6 +536,33 @@ Theorem zone_failure_local_not_admitted ze be ce x :
   ze || be || ce || cause_local x = true -> zone_failure_admitted ze be ce x = false.
 Proof. unfold zone_failure_admitted. intros ->. reflexivity. Qed.
 
+(* a zone failure is published only for a zone every one of whose servers
+   failed to give a usable response *)
+Theorem zone_failure_needs_every_server_to_fail servers :
+  zone_failure_published servers = true -> forall b, In b servers -> usable b = false.
+Proof.
+  unfold zone_failure_published. intros E b I.
+  destruct (usable b) eqn:U; [|reflexivity].
+  assert (existsb usable servers = true) by (apply existsb_exists; eauto).
+  rewrite H in E. discriminate.
+Qed.
+
+(* Shed load.  The marked classes of IsRequestLocalResolutionError are never
+   recorded; the resolver's two capacity sentinels are load shedding too but
+   are NOT in that list, so the handler's SERVFAIL for them is admitted to the
+   shared failure cache (finding shed-load-recorded). *)
+Theorem marked_errors_not_recorded H c s k e now :
+  is_request_local_error e = true -> serve_writeback H c s k (DFail (handler_failure e)) now = s.
+Proof. intro L. apply request_local_not_recorded. unfold handler_failure, request_local; cbn. now rewrite L. Qed.
+
+Theorem shed_load_recorded_witness :
+  exists e, shed_load e = true /\ cacheable_failure (handler_failure e) = true /\
+    forall H c k now, fst (fst (st_record_failure H c (mk_store [] false) k prov_response now)) <> mk_store [] false ->
+      serve_writeback H c (mk_store [] false) k (DFail (handler_failure e)) now <> mk_store [] false.
+Proof.
+  exists RCapacityGlobal. repeat split. intros H c k now N. cbn. exact N.
+Qed.
+
 (* -------------------------------------------------------- the kill switch *)
 Section Disabled.
   Variable H : qkey -> N.
